@@ -1813,6 +1813,31 @@ def x_fabs(ex, st, fr, ins, args):
     return z3.fpAbs(a) if is_sym(a) else abs(a)
 
 
+def _mk_cttz(bits):
+    def h(ex, st, fr, ins, args):
+        a = args[0]
+        if is_sym(a):
+            r = z3.BitVecVal(bits, bits)
+            for i in range(bits - 1, -1, -1):
+                r = z3.If(z3.Extract(i, i, bv(a, bits)) == 1, z3.BitVecVal(i, bits), r)
+            return r
+        a &= (1 << bits) - 1
+        if a == 0:
+            return bits
+        return (a & -a).bit_length() - 1
+    return h
+
+
+def _mk_ctlz(bits):
+    def h(ex, st, fr, ins, args):
+        a = args[0]
+        if is_sym(a):
+            raise Finding('limit', 'symbolic ctlz')
+        a &= (1 << bits) - 1
+        return bits - a.bit_length()
+    return h
+
+
 def x_fmuladd(ex, st, fr, ins, args):
     a, b, c = args
     return ex.fbin('fadd', ex.fbin('fmul', a, b), c)
@@ -2010,7 +2035,8 @@ EXTERNS = {
     '@ftell': x_ftell, '@fseek': x_fseek, '@feof': x_feof, '@ferror': x_noop0, '@fclose': x_noop0,
     '@fflush': x_noop0, '@clearerr': x_noop0, '@sqrt': x_sqrt, '@llvm.trunc.f64': _mk_round(z3.RTZ(), math.trunc),
     '@llvm.floor.f64': _mk_round(z3.RTN(), math.floor), '@llvm.ceil.f64': _mk_round(z3.RTP(), math.ceil),
-    '@floor': _mk_round(z3.RTN(), math.floor), '@trunc': _mk_round(z3.RTZ(), math.trunc), '@ceil': _mk_round(z3.RTP(), math.ceil), '@llvm.fmuladd.f64': x_fmuladd,
+    '@floor': _mk_round(z3.RTN(), math.floor), '@trunc': _mk_round(z3.RTZ(), math.trunc), '@ceil': _mk_round(z3.RTP(), math.ceil), '@llvm.fmuladd.f64': x_fmuladd, '@llvm.cttz.i32': _mk_cttz(32), '@llvm.cttz.i64': _mk_cttz(64),
+    '@llvm.ctlz.i32': _mk_ctlz(32), '@llvm.ctlz.i64': _mk_ctlz(64),
 }
 
 
